@@ -94,12 +94,12 @@ def handle (op : String) (arg : Sexp) : String :=
       | "rows" => finish (runShow rowsStep (fun s => s.1.length) showRow (([] : List Row), false) os)
       | "prim" =>
         match os.mapM cellOp with
-        | some cs => finish (runShow (Prim.step (fun v => if hashmod = 0 then v else v % hashmod) false)
+        | some cs => finish (runShow (Prim.step (fun v => if hashmod = 0 then v else v % hashmod) true)
                                 Prim.len showCell Prim.init cs)
         | none => "bad-op"
       | "bytes" =>
         match os.mapM cellOp with
-        | some cs => finish (runShow (Bytes.step false) Bytes.len showCell Bytes.init cs)
+        | some cs => finish (runShow (Bytes.step true) Bytes.len showCell Bytes.init cs)
         | none => "bad-op"
       | "bool" =>
         match os.mapM cellOp with
